@@ -242,6 +242,10 @@ def build_cases(thorough):
 
 
 def run(ctx):
+    from vf.simk import calibrate
+    binding = calibrate.run()
+    if binding["liveness_mismatches"] or binding["roundtrip_mismatches"]:
+        raise RuntimeError("environment model (simk) disagrees with this kernel: %r" % (binding,))
     cases = build_cases(ctx.thorough)
     n = max(1, len(cases) // (ctx.ncpu * 4))
     chunks = [(ctx.seed, cases[i:i + n]) for i in range(0, len(cases), n)]
@@ -259,7 +263,7 @@ def run(ctx):
                    "Process methods; cases are distinct by construction (de-duplicated token strings / (field, boundary value) "
                    "pairs); non-trivial = everything except the empty name",
            "per_dimension": kinds, "name_tokens": [t.decode("latin-1") for t in TOKENS], "boundaries": BOUND,
-           "outcomes": labels, "exhaustive": True, "samples": [enc(c) for c in sample(cases, 8)]}
+           "outcomes": labels, "exhaustive": True, "simk_binding": binding, "samples": [enc(c) for c in sample(cases, 8)]}
     return {"coverage": cov, "violations": viols,
             "assumptions": ["simk renders stat/status like fs/proc/array.c (name raw in stat, only \\n and \\\\ escaped in status)",
                             "names up to %d tokens of the stated alphabet, <= 15 bytes" % (4 if ctx.thorough else 3)]}
